@@ -32,7 +32,8 @@ func baseRow() row {
 	return row{
 		id: theID, ul: pBASIC | pPOST | pLOGINOK, ud: 100, ub: 0, uo: true, uf: 1000000000,
 		s: pb("vsrc"), t: pb("vtgt"),
-		a: art{found: true, argName: artName, entName: artName, entOwner: theID, mode: 0, exists: true},
+		a:  art{found: true, argName: artName, entName: artName, entOwner: theID, mode: 0, exists: true},
+		cd: "exp",
 	}
 }
 
@@ -43,7 +44,7 @@ func witnessRow(name string) row {
 	case "unverified":
 		r.ul = pBASIC | pPOST
 	case "coolingdown":
-		r.cdAct, r.pt = true, 15
+		r.cd, r.pt = "act", 15
 	}
 	return r
 }
@@ -93,12 +94,23 @@ func deviations(op string) []dev {
 		{"level-loginok", func(r *row, b *brd) { b.lvl |= pLOGINOK }},
 		// limits
 		{"limit-days5", func(r *row, b *brd) { b.lg = 5 }},
+		{"limit-days26", func(r *row, b *brd) { b.lg = 26 }},
+		{"limit-days128", func(r *row, b *brd) { b.lg = 128 }},
+		{"days2549", func(r *row, b *brd) { r.ud = 2549 }},
+		{"days2550", func(r *row, b *brd) { r.ud = 2550 }},
+		{"days-max", func(r *row, b *brd) { r.ud = 4294967295 }},
 		{"limit-days255", func(r *row, b *brd) { b.lg = 255 }},
 		{"limit-bad3", func(r *row, b *brd) { b.lb = 3 }},
 		{"limit-bad255", func(r *row, b *brd) { b.lb = 255 }},
 		// users on the board
 		{"nuser-neg", func(r *row, b *brd) { b.nuser = -5 }},
+		{"nuser30", func(r *row, b *brd) { b.nuser = 30 }},
 		{"nuser31", func(r *row, b *brd) { b.nuser = 31 }},
+		{"nuser1000", func(r *row, b *brd) { b.nuser = 1000 }},
+		{"nuser2000", func(r *row, b *brd) { b.nuser = 2000 }},
+		{"nuser4000", func(r *row, b *brd) { b.nuser = 4000 }},
+		{"nuser-max", func(r *row, b *brd) { b.nuser = 2147483647 }},
+		{"nuser-min", func(r *row, b *brd) { b.nuser = -2147483648 }},
 		{"nuser1001", func(r *row, b *brd) { b.nuser = 1001 }},
 		{"nuser2001", func(r *row, b *brd) { b.nuser = 2001 }},
 		{"nuser4001", func(r *row, b *brd) { b.nuser = 4001 }},
@@ -109,15 +121,20 @@ func deviations(op string) []dev {
 		{"ban-expired", func(r *row, b *brd) { b.ban = "exp" }},
 		{"ban-junk", func(r *row, b *brd) { b.ban = "junk" }},
 		// cool-down word
-		{"cd-exp-15", func(r *row, b *brd) { r.cdAct, r.pt = false, 15 }},
-		{"cd-act-0", func(r *row, b *brd) { r.cdAct, r.pt = true, 0 }},
-		{"cd-act-1", func(r *row, b *brd) { r.cdAct, r.pt = true, 1 }},
-		{"cd-act-2", func(r *row, b *brd) { r.cdAct, r.pt = true, 2 }},
-		{"cd-act-3", func(r *row, b *brd) { r.cdAct, r.pt = true, 3 }},
-		{"cd-act-9", func(r *row, b *brd) { r.cdAct, r.pt = true, 9 }},
-		{"cd-act-10", func(r *row, b *brd) { r.cdAct, r.pt = true, 10 }},
-		{"cd-act-14", func(r *row, b *brd) { r.cdAct, r.pt = true, 14 }},
-		{"cd-act-15", func(r *row, b *brd) { r.cdAct, r.pt = true, 15 }},
+		{"cd-exp-15", func(r *row, b *brd) { r.cd, r.pt = "exp", 15 }},
+		{"cd-act-0", func(r *row, b *brd) { r.cd, r.pt = "act", 0 }},
+		{"cd-act-1", func(r *row, b *brd) { r.cd, r.pt = "act", 1 }},
+		{"cd-act-2", func(r *row, b *brd) { r.cd, r.pt = "act", 2 }},
+		{"cd-act-3", func(r *row, b *brd) { r.cd, r.pt = "act", 3 }},
+		{"cd-act-9", func(r *row, b *brd) { r.cd, r.pt = "act", 9 }},
+		{"cd-act-10", func(r *row, b *brd) { r.cd, r.pt = "act", 10 }},
+		{"cd-act-14", func(r *row, b *brd) { r.cd, r.pt = "act", 14 }},
+		{"cd-act-15", func(r *row, b *brd) { r.cd, r.pt = "act", 15 }},
+		{"cd-max-1", func(r *row, b *brd) { r.cd, r.pt = "max", 1 }},
+		{"cd-max-15", func(r *row, b *brd) { r.cd, r.pt = "max", 15 }},
+		{"cd-neg-15", func(r *row, b *brd) { r.cd, r.pt = "neg", 15 }},
+		{"cd-negact-3", func(r *row, b *brd) { r.cd, r.pt = "negact", 3 }},
+		{"cd-negact-15", func(r *row, b *brd) { r.cd, r.pt = "negact", 15 }},
 	}
 	if op != "newpost" {
 		ds = append(ds,
@@ -238,6 +255,7 @@ func generate() {
 			}
 		}
 	}
+	boundaryGrids()
 	for _, op := range opList {
 		ds := deviations(op)
 		for i := range ds {
@@ -285,7 +303,7 @@ func generate() {
 	ws := strings.Fields(good)
 	bad := []string{
 		"", "reset", "newpost", "reset unknown " + baseRow().facts(), "reset newpost", strings.Join(ws[:len(ws)-1], " "),
-		good + " extra=1", strings.Replace(good, "pt=0", "pt=16", 1), strings.Replace(good, "cd=exp", "cd=now", 1),
+		good + " extra=1", strings.Replace(good, "pt=0", "pt=16", 1), strings.Replace(good, "cd=exp", "cd=now", 1), strings.Replace(good, "cd=exp", "cd=ACT", 1),
 		strings.Replace(good, "ul=19", "ul=1G", 1), strings.Replace(good, "ul=19", "ul=0x19", 1), strings.Replace(good, "ul=19", "ul=123456789", 1),
 		strings.Replace(good, "ub=0", "ub=256", 1), strings.Replace(good, "sb=none", "sb=maybe", 1),
 		strings.Replace(good, "sn="+hexs("vsrc"), "sn="+hexs("nosuch"), 1), strings.Replace(good, "tn="+hexs("vtgt"), "tn="+hexs("vsrc"), 1),
@@ -305,6 +323,77 @@ func generate() {
 	}
 	run.Exhaust = false
 	checkCells()
+}
+
+// boundaryGrids: the numeric dimensions at the edges of their Go types, for every operation, on the written board,
+// everything else at the base row (so that only the clause under test can fail):
+//   - login-days limit L (uint8, unit: 10 days) x login days around L*10, around (L*10 mod 256) — where a uint8
+//     product would wrap —, around 2550 and at the top of uint32;
+//   - bad-post limit B (uint8) x bad posts around 255-B and at 0 / 255;
+//   - users on the board around every threshold of the flood table x every value of the post counter nibble, with the
+//     cool-down running; the counter nibble with the time part at its maximum and with bit 31 of the word set;
+//   - every single bit of the 32-bit level masks: demanded by the board (with and without BRD_POSTMASK), held or not
+//     held by the user.
+func boundaryGrids() {
+	for _, op := range opList {
+		at := func(f func(r *row, b *brd)) {
+			r := baseRow()
+			b := &r.s
+			if op == "crosspost" {
+				b = &r.t
+			}
+			f(&r, b)
+			emit(op, r)
+		}
+		for _, L := range []int{0, 1, 25, 26, 30, 127, 128, 255} {
+			seen := map[int64]bool{}
+			for _, d := range []int64{0, int64(L*10%256) - 1, int64(L * 10 % 256), int64(L*10) - 1, int64(L * 10), 2549, 2550, 4294967295} {
+				if d < 0 || seen[d] {
+					continue
+				}
+				seen[d] = true
+				at(func(r *row, b *brd) { b.lg, r.ud = uint8(L), uint32(d) })
+			}
+		}
+		for _, B := range []int{0, 1, 254, 255} {
+			seen := map[int]bool{}
+			for _, p := range []int{0, 255 - B, 256 - B, 255} {
+				if p < 0 || p > 255 || seen[p] {
+					continue
+				}
+				seen[p] = true
+				at(func(r *row, b *brd) { b.lb, r.ub = uint8(B), uint8(p) })
+			}
+		}
+		for _, nu := range []int32{-1, 0, 30, 31, 1000, 1001, 2000, 2001, 4000, 4001, 2147483647} {
+			for pt := 0; pt < 16; pt++ {
+				at(func(r *row, b *brd) { b.nuser, r.cd, r.pt = nu, "act", pt })
+			}
+		}
+		for _, cd := range []string{"exp", "max", "neg", "negact"} {
+			for pt := 0; pt < 16; pt++ {
+				at(func(r *row, b *brd) { r.cd, r.pt = cd, pt })
+			}
+		}
+		for bit := 0; bit < 32; bit++ {
+			m := uint32(1) << uint(bit)
+			for _, pm := range []bool{false, true} {
+				for _, held := range []bool{false, true} {
+					at(func(r *row, b *brd) {
+						b.lvl = m
+						if pm {
+							b.attr |= aPOSTMASK
+						}
+						if held {
+							r.ul |= m
+						} else {
+							r.ul &^= m
+						}
+					})
+				}
+			}
+		}
+	}
 }
 
 // postpermProduct: all combinations of the facts of the posting and reading decisions (thorough).
